@@ -93,7 +93,8 @@ deriving DecidableEq, Repr, Hashable
 structure St where
   cfgd : Bool := false
   keep : Bool := false
-  tgt : Bool := true                   -- target / targetErr containers given (non-nil)
+  tgt : Bool := true                   -- `target` container given (non-nil)
+  tgtE : Bool := true                  -- `targetErr` container given (non-nil)
   ctx : Nat := 0
   dead : List Nat := []                -- cancelled root contexts
   th : List TS := []
@@ -117,8 +118,13 @@ deriving DecidableEq, Repr, Hashable
 
 /-! ## observables -/
 
+/-- container configuration code of `cfg`: 0 neither, 1 both, 2 only `target`, 3 only `targetErr`
+("ctx, target and targetErr can be empty") -/
+def cfgTgt (t : Nat) : Bool := t == 1 || t == 2
+def cfgTgtE (t : Nat) : Bool := t == 1 || t == 3
+
 inductive Obs where
-  | cfg (keep : Bool) (ctx : Nat) (tgt : Bool)
+  | cfg (keep : Bool) (ctx : Nat) (tgt : Nat)
   | invAddRef (a : Nat) (k : CbKind)
   | retAddRef (a : Nat)
   | invRelease (b r : Nat)
@@ -138,7 +144,7 @@ inductive Obs where
 deriving DecidableEq, Repr, Hashable
 
 inductive Ev where
-  | cfg (keep : Bool) (ctx : Nat) (tgt : Bool)
+  | cfg (keep : Bool) (ctx : Nat) (tgt : Nat)
   | invAddRef (a : Nat) (k : CbKind)
   | addRefCS (a : Nat)
   | retAddRef (a : Nat)
@@ -234,7 +240,7 @@ def clearResolved (s : St) : St :=
   let s1 : St :=
     if s.resolved then
       { s with resolved := false, cur := none
-               targetErr := if s.verr ≠ 0 ∧ s.tgt then 0 else s.targetErr
+               targetErr := if s.verr ≠ 0 ∧ s.tgtE then 0 else s.targetErr
                verr := 0
                target := if s.value ≠ 0 ∧ s.tgt then 0 else s.target
                value := 0
@@ -322,7 +328,7 @@ def pendingIds (s : St) : List Nat :=
 
 def step (s : St) : Ev → Option St
   | .cfg keep ctx tgt =>
-    if s.cfgd then none else some { s with cfgd := true, keep := keep, ctx := ctx, tgt := tgt }
+    if s.cfgd then none else some { s with cfgd := true, keep := keep, ctx := ctx, tgt := cfgTgt tgt, tgtE := cfgTgtE tgt }
   | .invAddRef a k =>
     if s.cfgd ∧ a = s.th.length ∧ k ≠ .hook then
       some { s with th := s.th ++ [.ref k .inv false false false none] } else none
@@ -486,7 +492,7 @@ def step (s : St) : Ev → Option St
                      resolved := true, value := val, verr := err
                      rel := if hasRel then some i else none
                      cur := some i
-                     targetErr := if s.tgt then err else s.targetErr
+                     targetErr := if s.tgtE then err else s.targetErr
                      target := if err = 0 ∧ s.tgt then val else s.target
                      th := tellAll s.th (some i)
                      pend := addBatch s.pend (cbItems s.th true val err) }
@@ -572,7 +578,7 @@ def parseKind (s : String) : Option CbKind :=
   else if s == "rec" then some .rcd else none
 
 def Obs.parse : List String → Option Obs
-  | ["cfg", k, c, t] => do pure (.cfg (← parseBit k) (← c.toNat?) (← parseBit t))
+  | ["cfg", k, c, t] => do pure (.cfg (← parseBit k) (← c.toNat?) (← t.toNat?))
   | ["inv", a, "addref", k] => do pure (.invAddRef (← a.toNat?) (← parseKind k))
   | ["ret", a, "addref"] => do pure (.retAddRef (← a.toNat?))
   | ["inv", b, "release", r] => do pure (.invRelease (← b.toNat?) (← r.toNat?))
